@@ -288,6 +288,14 @@ pub fn run_script(script: &Value) -> Value {
     reg!(V0, D0, H0, B0, F0, V1, D1, H1, B1, F1, V2, D2, H2, B2, F2, N0, FV0, FD0);
     let real: Vec<Entity> = world.create_iter().take(n_ent).collect();
     let dead_es: Vec<Entity> = real.iter().copied().filter(|e| dead.contains(&e.id())).collect();
+    // some of the dying entities had a deferred deletion requested first; some entities
+    // stay alive with a deferred deletion pending (no maintain happens before the join)
+    let doomed: Vec<u32> = ids_of(script, "doomed");
+    for e in real.iter() {
+        if doomed.contains(&e.id()) {
+            let _ = world.entities().delete(*e);
+        }
+    }
     let _ = world.delete_entities(&dead_es);
     // entities created through shared access and not yet merged by a maintain
     let n_raised = script["n_raised"].as_u64().unwrap_or(0) as usize;
